@@ -1,6 +1,6 @@
 (* C18 - no hidden sharing or mutation: property theorems (proofs in theories/ShareProofs.v). *)
 From Coq Require Import List Arith Bool ZArith.
-From Verif Require Import Share ShareProofs ShareMore ShareTwice.
+From Verif Require Import Share ShareProofs ShareMore ShareTwice ShareNoDup.
 Import ListNotations.
 
 (* Serialization.  For every class table / format dialect E, call dialect, no_copy set,
@@ -233,3 +233,16 @@ Example C18_nonvacuous_typeddict_chainmap :
   fst (unpack_top env0 cm (VSeq KList 0 [VMap KDict 1 [(VAtom 0%Z, VSeq KList 2 [VAtom 1%Z])]]) 3)
     = VSeq KChainMap 3 [VMap KDict 4 [(VAtom 0%Z, VSeq KList 5 [VAtom 1%Z])]].
 Proof. vm_compute. repeat split; reflexivity. Qed.
+
+(* No aliasing inside a result: the labels drawn from the supply occur once each, i.e. the new containers of
+   a result are pairwise distinct objects (so mutating one part of the result cannot change another new part).
+   No conformance hypothesis. *)
+Theorem C18_fresh_distinct : forall E n0 call N t v,
+  all_old n0 v = true -> NoDup (flabels n0 (fst (pack_top E call N t v n0))).
+Proof. exact pack_fresh_nodup. Qed.
+Print Assumptions C18_fresh_distinct.
+
+Theorem C18_decode_fresh_distinct : forall E n0 t w,
+  all_old n0 w = true -> NoDup (flabels n0 (fst (unpack_top E t w n0))).
+Proof. exact unpack_fresh_nodup. Qed.
+Print Assumptions C18_decode_fresh_distinct.
